@@ -18,7 +18,7 @@ def discr(tr, e, tag):
 def run(ctx):
     r = tlc.run("FakeTrxMC.tla", ctx.pick("MC_FakeTrxFlowQ.cfg", "MC_FakeTrxFlow.cfg"), workers=8, timeout=3000)
     ctx.require_ok("MC FakeTrxMC flow mode (arrivals, ticks across the wrap, POWEROFF/POWERON, SETFORMAT, FAKE_DROP, RFMUTE)", r)
-    pass  # schedules(ctx): see below
+    schedules(ctx)
     traces = [FC.traffic_session(ctx, "s%d" % k, ID) for k in range(ctx.pick(110, 5000))]
     nd = FC.traffic_stats(ctx, traces)
     FC.validate(ctx, traces, (ID + ".",) + ("C09.tick-frame-number",), "TV FakeTrxTrace (%s traffic sessions on the real Application)" % ID, discr)
@@ -28,3 +28,174 @@ def run(ctx):
     ctx.rule = "seeded histories of burst arrivals (frame offsets -3..+5 around the clock, far offsets, both header versions incl. mismatching ones), ticks, POWERON/POWEROFF, SETFORMAT; half of the sessions start a few frames before the hyperframe wrap; every session ends by ticking past all queued frames and powering off; distinct by session"
     ctx.trusted += ["harness/py/faketrx_drv.py (fake sockets, thread stand-in, projection)", "TLC"]
     ctx.assumptions += ["a burst further than a quarter hyperframe from the clock may be kept or reported stale (the statement does not say)", "pre-emption inside one source line is not enumerated (schedule part)"]
+
+
+# ---------------------------------------------------------------- schedules
+TRACED = ("transceiver.py", "fake_trx.py", "burst_fwd.py", "data_if.py", "ctrl_if.py", "ctrl_if_trx.py", "clck_gen.py")
+
+
+_SIM = {}
+
+
+class ResetFailed(Exception):
+    pass
+
+
+def one_schedule(scn, first, k1, k2, probe=False):
+    """Execute one schedule of scenario `scn`; the application object is built
+    once and brought back to the scenario's initial state by power-cycling
+    both transceivers (which clears the queue and restarts the clock).
+    Returns (events, steps per thread, exceptions)."""
+    import logging
+    import random
+    import threading
+    import baton
+    import faketrx_drv as F
+    random.seed(1)
+    sim = _SIM.get("sim")
+    if sim is None:
+        sim = _SIM["sim"] = F.Sim([])
+    sim.app.clck_gen.clck_start = scn["fn"]
+    log = []
+    ms, bts = 1, 0
+    import threading as _th
+    sim.trx[ms]._tx_queue_lock = _th.Lock()
+    for t, (rx, tx) in ((bts, (890200, 935200)), (ms, (935200, 890200))):
+        sim.cmd(t, b"CMD POWEROFF\0")
+    for t, (rx, tx) in ((bts, (890200, 935200)), (ms, (935200, 890200))):
+        sim.cmd(t, b"CMD RXTUNE %d\0" % rx)
+        sim.cmd(t, b"CMD TXTUNE %d\0" % tx)
+        sim.cmd(t, b"CMD POWERON\0")
+    if not (sim.app.clck_gen.clck_src == scn["fn"] and sim.trx[ms]._tx_queue == []):
+        raise ResetFailed("power cycling did not restart the clock / clear the queue")
+    for m in scn["q"]:
+        sim.data(ms, FC.tx_datagram(0, m["fn"], m["id"], 0, bytes(148)))
+    if not scn["run"]:
+        sim.cmd(ms, b"CMD POWEROFF\0")          # clears the queue; scenario queues are empty then
+    bt = baton.Baton(TRACED)
+    lock = baton.BatonLock(bt, lambda: threading.current_thread().name)
+    sim.trx[ms]._tx_queue_lock = lock
+    sim.net.take()
+
+    def hook(sock, data, addr):
+        i, kind = sim.sock2.get(id(sock), (-1, "?"))
+        if kind == "data" and i == bts:
+            log.append(dict(e="sent", id=data[0] & 7))
+    sim.net.hook = hook
+
+    class H(logging.Handler):
+        def emit(self, rec):
+            msg = rec.getMessage()
+            m = F._STALE.match(msg)
+            if m:
+                import re
+                mt = re.search(r"\btn=(\d+)", m.group(3))
+                log.append(dict(e="stale", id=int(mt.group(1))))
+    h = H(logging.WARNING)
+    logging.getLogger().addHandler(h)
+    op = scn["op"]
+
+    def sock():
+        if op["op"] == "arrive":
+            log.append(dict(e="sockStart", op="arrive", m=op["m"]))
+            sim.trx[ms].data_if.sock.feed(FC.tx_datagram(0, op["m"]["fn"], op["m"]["id"], 0, bytes(148)))
+            r = sim.trx[ms].recv_data_msg()
+            log.append(dict(e="sockEnd", acc=r is not None))
+        else:
+            log.append(dict(e="sockStart", op=op["op"], m=dict(id=0, fn=0)))
+            sim.trx[ms].ctrl_if.sock.feed(b"CMD POWEROFF\0" if op["op"] == "off" else b"CMD POWERON\0", ("127.0.0.1", 1))
+            sim.trx[ms].ctrl_if.handle_rx()
+            log.append(dict(e="sockEnd", acc=False))
+
+    def clk():
+        log.append(dict(e="tickStart", fn=scn["fn"]))
+        sim.app.clck_gen.send_clck_ind()
+        log.append(dict(e="tickEnd"))
+
+    try:
+        steps = bt.run({"sock": _named(sock, "sock"), "clk": _named(clk, "clk")}, first, k1, k2)
+    finally:
+        logging.getLogger().removeHandler(h)
+        sim.net.hook = None
+    log.append(dict(e="final", q=[m.tn for m in sim.trx[ms]._tx_queue], run=bool(sim.trx[ms].running)))
+    return log, dict(steps, mark=bt.marks.get("clk", 0), acq=bt.first_acq.get("clk", 0),
+                     smark=bt.marks.get("sock", 0), sacq=bt.first_acq.get("sock", 0)), dict(bt.errors)
+
+
+def _named(fn, name):
+    def run():
+        import threading
+        threading.current_thread().name = name
+        fn()
+    return run
+
+
+def schedules(ctx):
+    """Every <=2-pre-emption schedule of {arrival, POWEROFF, POWERON} racing one tick."""
+    import itertools
+    r = tlc.run("FakeTrxThreadsMC.tla", "MC_FakeTrxThreads.cfg", workers=4, timeout=1200)
+    ctx.require_ok("MC FakeTrxThreadsMC (all interleavings of one socket-thread operation with one tick)", r)
+    F0 = 1000
+    scns = []
+    queues = [[], [dict(id=1, fn=F0)], [dict(id=1, fn=F0), dict(id=2, fn=F0 + 1)], [dict(id=1, fn=F0 - 1), dict(id=2, fn=F0)]]
+    for q in queues:
+        for fn_new in (F0, F0 + 1, F0 - 1):
+            scns.append(dict(run=True, q=q, fn=F0, op=dict(op="arrive", m=dict(id=3, fn=fn_new))))
+        scns.append(dict(run=True, q=q, fn=F0, op=dict(op="off")))
+    scns.append(dict(run=False, q=[], fn=F0, op=dict(op="on")))
+    scns.append(dict(run=False, q=[], fn=F0, op=dict(op="arrive", m=dict(id=3, fn=F0))))
+    if not ctx.thorough:
+        scns = [scns[i] for i in (4, 11, 12)]
+    traces = []
+    nexec = 0
+    for si, scn in enumerate(scns):
+        try:
+            _, steps, _ = one_schedule(scn, "sock", 10 ** 6, 0)      # sequential run: measures the step counts
+        except ResetFailed as e:
+            ctx.violation("C03/schedule/power-cycle-does-not-reset", str(e), dict(scenario=scn))
+            return
+        na, nb = steps.get("sock", 0), steps.get("clk", 0)
+        # the clock thread's steps up to (a little past) its last release of the queue mutex are
+        # enumerated completely; the forwarding / logging steps after it with a stride in quick
+        lo, hi = max(0, steps.get("acq", 0) - 3), min(nb, steps.get("mark", nb) + 4)
+        tail = 1 if ctx.thorough else 7
+        clk_points = sorted(set(list(range(0, lo, tail)) + list(range(lo, hi + 1)) + list(range(hi + 1, nb + 1, tail)) + [nb]))
+        slo, shi = max(0, steps.get("sacq", 0) - 3), min(na, (steps.get("smark", na) or na) + 4)
+        sock_points = sorted(set(list(range(0, slo, tail)) + list(range(slo, shi + 1)) + list(range(shi + 1, na + 1, tail)) + [na]))
+        for first in ("sock", "clk"):
+            r1 = sock_points if first == "sock" else clk_points
+            r2 = clk_points if first == "sock" else sock_points
+            for k1 in r1:
+                for k2 in r2:
+                    if k1 == 0 and k2 > 0 and first == "clk":
+                        continue                     # same executions as first == "sock" with k1' = k2
+                    log, _, errs = one_schedule(scn, first, k1, k2)
+                    nexec += 1
+                    if errs:
+                        ctx.violation("C03/schedule/exception/%s" % type(list(errs.values())[0]).__name__,
+                                      "exception %r in scenario %d schedule (%s,%d,%d)" % (errs, si, first, k1, k2),
+                                      dict(scenario=scn, schedule=[first, k1, k2]))
+                        continue
+                    traces.append(dict(id="x%d-%s-%d-%d" % (si, first, k1, k2), cfg=dict(run=scn["run"], q=scn["q"]), ev=log))
+        ctx.log("scenario %d: %d+%d line steps, %d executions so far" % (si, na, nb, nexec))
+    ctx.extra["schedules_executed"] = nexec
+    # identical event sequences need to be validated only once
+    uniq = {}
+    for t in traces:
+        key = repr((t["cfg"], t["ev"]))
+        uniq.setdefault(key, t)
+    ctx.extra["distinct_schedule_traces"] = len(uniq)
+    ul = list(uniq.values())
+    res, stats = tlc.validate_traces("FakeTrxThreadsTrace.tla", "FakeTrxThreadsTrace.cfg", ul, scratch=ctx.scratch,
+                                     chunk="balance", parallel=4, timeout=3000, dfs=True)
+    ctx.add_tv("TV FakeTrxThreadsTrace (enumerated line-level schedules of the real code)", stats, len(ul))
+    byid = {t["id"]: t for t in ul}
+    for v in res:
+        ctx.distinct(v["id"])
+        if v["reached"] != v["n"]:
+            t = byid[v["id"]]
+            e = t["ev"][v["reached"]]
+            ctx.violation("C03/schedule/%s/%s" % (e["e"], t["ev"][0].get("op", "tick-first") if t["ev"][0]["e"] == "sockStart" else [x for x in t["ev"] if x["e"] == "sockStart"][0]["op"]),
+                          "schedule %s: no interleaving of the specification explains event %d (%s)" % (v["id"], v["reached"] + 1, e),
+                          dict(cfg=t["cfg"], events=t["ev"]))
+    ctx.sample(dict(schedule=ul[len(ul) // 2]["id"], events=ul[len(ul) // 2]["ev"]))
